@@ -279,6 +279,53 @@ fn sequential(ctx: &Ctx) {
     }
 }
 
+/// Allocation interleaved with creation changes (a node learns its creation from EPMD after it was built, and
+/// may be told the same value again or return to an earlier one): identifiers stay pairwise distinct as
+/// (id, serial, creation) triples and each carries the creation in force when it was made.
+fn creation_histories(ctx: &Ctx, rng: &mut Rng) {
+    for round in 0..ctx.pick(40usize, 2000usize) {
+        let start_creation = *rng.pick(&[1u32, 2, 7, u32::MAX]);
+        let alloc = PidAllocator::new(Atom::new("n@h"), start_creation);
+        if rng.chance(1, 3) {
+            // sometimes close to the id wrap, so that the serial has advanced before a creation returns
+            alloc.next_id_test_only().store(MAX_ID - rng.below(4) as u32, Ordering::SeqCst);
+            alloc.next_serial_test_only().store(*rng.pick(&[0u64, 5, (1u64 << 32) - 1]), Ordering::SeqCst);
+        }
+        let mut in_force = start_creation;
+        let pool = [start_creation, start_creation.wrapping_add(1), 3, 4];
+        let mut seen: HashSet<(u32, u32, u32)> = HashSet::new();
+        let mut history: Vec<String> = Vec::new();
+        let steps = 4 + rng.below(12);
+        let mut bad = false;
+        for _ in 0..steps {
+            if rng.chance(1, 3) {
+                let c = *rng.pick(&pool);
+                alloc.set_creation(c);
+                in_force = c;
+                history.push(format!("set_creation({})", c));
+            } else {
+                for _ in 0..1 + rng.below(4) {
+                    let p = alloc.allocate().expect("allocate");
+                    ctx.eval(1);
+                    history.push(format!("<{}.{}.{}>", p.id, p.serial, p.creation));
+                    if p.creation != in_force && !bad {
+                        bad = true;
+                        ctx.viol("C16:creation-mismatch:creation-history", "a pid does not carry the creation in force when it was made", json!({"history": history, "in_force": in_force}));
+                    }
+                    if !seen.insert((p.id, p.serial, p.creation)) && !bad {
+                        bad = true;
+                        ctx.viol("C16:duplicate-pid:creation-history", "the same (id, serial, creation) triple was handed out twice by one allocator", json!({"history": history}));
+                    }
+                }
+            }
+        }
+        ctx.class(&format!("creation-history/{}", if history.iter().filter(|h| h.starts_with("set")).count() > 1 { "several-changes" } else { "at-most-one-change" }));
+        if round == 0 {
+            ctx.sample(json!({"creation_history": history}));
+        }
+    }
+}
+
 fn enumerated(ctx: &Ctx, rng: &mut Rng) {
     let configs: Vec<(usize, usize, u64)> = if ctx.quick() { vec![(2, 1, 400), (2, 2, 600), (3, 1, 500)] } else { vec![(2, 1, 100_000), (2, 2, 400_000), (3, 1, 400_000), (3, 2, 100_000), (4, 1, 100_000)] };
     let starts: &[(u32, u64)] = &[(1, 0), (MAX_ID - 1, 0), (MAX_ID, 0), (MAX_ID, (1u64 << 32) - 1)];
@@ -452,10 +499,11 @@ fn references(ctx: &Ctx) {
 }
 
 pub fn run(ctx: &Ctx) {
-    ctx.rule("(a) sequential allocations across 2..5 wraps and from counters preset just before the id wrap and the serial's 32-bit wrap; (b) turn-based scheduler over the pid_alloc sync points + lock probe: interleavings of 2x1, 2x2, 3x1 (and 3x2, 4x1 thorough) allocations enumerated depth-first (exhaustive where marked), random schedules for 2..4 threads; (c) free-running stress 2..16 threads with seeded spin/yield/sleep at the hook points; (d) 16 threads x make_reference; evaluations = schedules/rounds/allocations judged by the uniqueness oracle; distinct = distinct step orders actually realised (trace hashes) + configuration classes");
+    ctx.rule("(a) sequential allocations across 2..5 wraps and from counters preset just before the id wrap and the serial's 32-bit wrap; (a') histories of allocations interleaved with set_creation to new, the same and earlier values; (b) turn-based scheduler over the pid_alloc sync points + lock probe: interleavings of 2x1, 2x2, 3x1 (and 3x2, 4x1 thorough) allocations enumerated depth-first (exhaustive where marked), random schedules for 2..4 threads; (c) free-running stress 2..16 threads with seeded spin/yield/sleep at the hook points; (d) 16 threads x make_reference; evaluations = schedules/rounds/allocations judged by the uniqueness oracle; distinct = distinct step orders actually realised (trace hashes) + configuration classes");
     ctx.assume("uniqueness is only claimed within 2^32 serial increments (a serial that wraps after 2^52 allocations re-issues pairs by construction)");
     let mut rng = Rng::derive(ctx.seed, 16, 1);
     sequential(ctx);
+    creation_histories(ctx, &mut rng);
     enumerated(ctx, &mut rng);
     stress(ctx, &mut rng);
     references(ctx);
